@@ -1701,6 +1701,13 @@ func stepCandidate(r *raft, m *pb.Message) error {
 			if r.state == StatePreCandidate {
 				r.campaign(campaignElection)
 			} else {
+				if !r.trk.Votes[r.id] {
+					// Our own vote, and with it the term, is not durable yet: the
+					// self-addressed MsgVoteResp is delivered only once it is. Wait
+					// for it; otherwise a restart could forget that this node ever
+					// led this term and lead it a second time.
+					return nil
+				}
 				r.becomeLeader()
 				r.bcastAppend()
 			}
